@@ -32,6 +32,7 @@ type c08Key struct {
 	T    int  `json:"t"`    // lifetime in seconds, 0 = uncacheable
 	Size int  `json:"size"` // body size
 	Gzip bool `json:"gzip"` // client asks for gzip (compressible body above the threshold is stored compressed)
+	Long bool `json:"long,omitempty"` // the URI carries 65 100 bytes of padding in front of what tells the keys apart
 }
 
 type c08Op struct {
@@ -49,6 +50,10 @@ type c08Scenario struct {
 	Two bool `json:"two,omitempty"`
 }
 
+// The URIs of the keys differ only at their very end ("...&v=<case>-<key>"), and keys 10-19,
+// 20-29, 30-39 share all parameters with key 1, 2, 3: the URI of key 1 is a proper prefix of
+// those of keys 10-19, and so on. Long keys share their first 65 100+ bytes.
+
 func genC08(t *rapid.T) c08Scenario {
 	sc := c08Scenario{Two: rapid.IntRange(0, 9).Draw(t, "two") < 6}
 	nk := rapid.IntRange(20, 40).Draw(t, "nKeys")
@@ -56,6 +61,14 @@ func genC08(t *rapid.T) c08Scenario {
 		k := c08Key{T: rapid.SampledFrom([]int{0, 2, 3, 4, 6, 8, 8, 30}).Draw(t, "T"), Size: rapid.SampledFrom([]int{10, 200, 3000}).Draw(t, "size")}
 		k.Gzip = rapid.Bool().Draw(t, "gzip")
 		sc.Keys = append(sc.Keys, k)
+	}
+	for i := 10; i < nk; i++ {
+		sc.Keys[i] = sc.Keys[i/10]
+	}
+	if rapid.IntRange(0, 3).Draw(t, "longKeys") == 0 {
+		// two keys beyond what a badger key can hold, identical up to there
+		sc.Keys[nk-1].Long, sc.Keys[nk-2].Long = true, true
+		sc.Keys[nk-2].T, sc.Keys[nk-2].Size = sc.Keys[nk-1].T, sc.Keys[nk-1].Size
 	}
 	kills := 0
 	maxKills := 2
@@ -70,7 +83,15 @@ func genC08(t *rapid.T) c08Scenario {
 			sc.Ops = append(sc.Ops, c08Op{K: "burst", Key: rapid.IntRange(0, nk-1).Draw(t, "from"), N: rapid.IntRange(8, nk).Draw(t, "n")})
 		case 6:
 			sc.Ops = append(sc.Ops, c08Op{K: "purge", Key: rapid.IntRange(0, nk-1).Draw(t, "key")})
-		case 7, 8:
+		case 7:
+			// the longer of two prefix-related URIs first, then the shorter one
+			short := rapid.IntRange(1, 3).Draw(t, "short")
+			if long := short*10 + rapid.IntRange(0, 9).Draw(t, "longer"); long < nk {
+				sc.Ops = append(sc.Ops, c08Op{K: "get", Key: long}, c08Op{K: "get", Key: short})
+			} else {
+				sc.Ops = append(sc.Ops, c08Op{K: "get", Key: nk - 1}, c08Op{K: "get", Key: nk - 2})
+			}
+		case 8:
 			ms := rapid.SampledFrom([]int{0, 200, 900, 1100, 2100, 3100}).Draw(t, "ms")
 			if ms > sleepBudget {
 				ms = 0
@@ -128,7 +149,11 @@ var c08UpNames = [2]string{"U", "V"}
 
 func c08URI(caseTag string, key int, k c08Key) string {
 	typ := "text/plain"
-	return fmt.Sprintf("/c08/%s/k%d?size=%d&type=%s&cc=%d&v=%s-%d", caseTag, key, k.Size, typ, k.T, caseTag, key)
+	pad := ""
+	if k.Long {
+		pad = "&pad=" + strings.Repeat("p", 65100)
+	}
+	return fmt.Sprintf("/c08/%s/k?size=%d&type=%s&cc=%d%s&v=%s-%d", caseTag, k.Size, typ, k.T, pad, caseTag, key)
 }
 
 func execC08(sc c08Scenario) *vstat.Outcome {
@@ -234,7 +259,7 @@ func execC08(sc c08Scenario) *vstat.Outcome {
 			cr.BodyOK = bytes.Equal(body, echoBody(k.Size, fmt.Sprintf("%s-%d", caseTag, key))) && r.Header.Get("X-Upstream") == c08UpNames[srv] &&
 				fmt.Sprint(r.Header.Values("Vary")) == "[Accept-Encoding, X-Client-Kind]" && fmt.Sprint(r.Header.Values("Last-Modified")) == "[Wed, 21 Oct 2015 07:28:00 GMT]" &&
 				fmt.Sprint(r.Header.Values("Link")) == "[</a>; rel=preload </b>; rel=preload, </c>; rel=prefetch]" && r.Header.Get("Content-Type") == "text/plain" &&
-				strings.HasPrefix(r.Header.Get("X-Echo-Path"), "/c08/"+caseTag+"/k"+strconv.Itoa(key))
+				r.Header.Get("X-Echo-Path") == "/c08/"+caseTag+"/k" && strings.HasSuffix(r.Header.Get("X-Echo-Query"), fmt.Sprintf("&v=%s-%d", caseTag, key))
 		}
 		mu.Lock()
 		resps = append(resps, cr)
@@ -387,7 +412,7 @@ func execC08(sc c08Scenario) *vstat.Outcome {
 			out.Violate("C08", "altered", "%s: served from cache the response %s, which was fetched through the other server (another cache with another store directory and another upstream)", what, r.Serial)
 			continue
 		}
-		if !strings.Contains(src.URI, fmt.Sprintf("/k%d?", r.Key)) {
+		if !strings.HasSuffix(src.URI, fmt.Sprintf("&v=%s-%d", caseTag, r.Key)) {
 			out.Violate("C06", "foreign-response", "%s: served the response fetched for %s", what, src.URI)
 			continue
 		}
@@ -435,7 +460,7 @@ func execC08(sc c08Scenario) *vstat.Outcome {
 			continue
 		}
 		for key := range sc.Keys {
-			if strings.Contains(l.URI, fmt.Sprintf("/k%d?", key)) {
+			if strings.HasSuffix(l.URI, fmt.Sprintf("&v=%s-%d", caseTag, key)) {
 				id := key
 				if l.Name == c08UpNames[1] {
 					id += 100000
@@ -458,6 +483,12 @@ func execC08(sc c08Scenario) *vstat.Outcome {
 		out.Class("purged")
 	}
 	out.Class(fmt.Sprintf("kills_%d", len(killTimes)))
+	for _, k := range sc.Keys {
+		if k.Long {
+			out.Class("keys_longer_than_a_badger_key")
+			break
+		}
+	}
 	if sc.Two {
 		out.Class("two_servers_two_store_directories")
 	}
@@ -467,4 +498,12 @@ func execC08(sc c08Scenario) *vstat.Outcome {
 
 func TestC08(t *testing.T) {
 	vstat.Run(t, "C08", "proc", genC08, execC08)
+}
+
+// TestC06Store: the same histories judged for C06 -- with a real badger store behind the
+// caches, keys whose URI is a proper prefix of another key's URI, keys longer than a badger
+// key can be, and a second cache on the same URLs, no request may ever be served a response
+// produced for another (method, Host, URI)
+func TestC06Store(t *testing.T) {
+	vstat.Run(t, "C06", "proc", genC08, execC08)
 }
